@@ -162,6 +162,7 @@ def main(argv=None):
         counterexamples_not_reproduced=[x[0] for x in nonrepro][:10], witness_replay_disagreements=len(wbad), job_errors=len(errors),
         second_solver=dict(solver='cvc5 (python wheel) on the SMT-LIB2 export of the z3 query', queries_rechecked=S('cross_checked'), inconclusive=S('cross_inconclusive'),
                            disagreements=sum(len(r.get('cross_disagree', [])) for r in results)),
+        unknown_resolved_by_bounded_enumeration=S('unknown_resolved_by_enumeration'),
         partial_run_filter=a.only, paths_outside_harness_bound=S('outside_bound'),
         unknown_obligation_labels=sorted({l for r in results for l in r.get('unknown_labels', [])})[:20],
     )
